@@ -28,6 +28,7 @@ mod c18;
 mod c14;
 mod dce;
 mod gocomp;
+mod namecat;
 mod probe;
 mod rng;
 mod sexp;
@@ -64,6 +65,7 @@ fn main() {
         "c14" => c14::main(&args),
         "dce" => dce::main(&args),
         "gocomp" => gocomp::main(&args),
+        "namecat" => namecat::main(&args),
         "probe" => probe::main(&args),
         "stages" => probe::stages(&args),
         "golden" => probe::golden(&args),
